@@ -248,6 +248,14 @@ where
     }
 }
 
+#[cfg(tarpc_verif)]
+impl<Req, Resp, T> BaseChannel<Req, Resp, T> {
+    /// Number of armed deadline timers.
+    pub fn verif_timers(&self) -> usize {
+        self.in_flight_requests.verif_timers()
+    }
+}
+
 impl<Req, Resp, T> fmt::Debug for BaseChannel<Req, Resp, T> {
     fn fmt(&self, f: &mut fmt::Formatter<'_>) -> fmt::Result {
         write!(f, "BaseChannel")
